@@ -21,6 +21,11 @@ bare ones (`Atoms(cell=...)`) - and N = 1 structures, all cell kinds, factors mo
 (for N = 0 what remains is exactly: 0 atoms, no terms, cell rows a*A, b*B, c*C, unchanged tables, input untouched) and
 tied to the model like every other case.
 
+Independence: the replica is a NEW object - never the input itself, sharing no numpy array and no label set / list with
+it (np.shares_memory on every array attribute, `is` on every other mutable attribute) - and after every API replication
+(all factor triples, (1,1,1) included) the replica is edited in place (translate, cell entry, charges, positions,
+`del r[[0]]`, a coefficient string, a label list) and the original is dumped again: it must be exactly what it was.
+
 Accessor: after every API replication the cell description the object gives of itself
 (`cell_abc_alpha_beta_gamma()`, what the CIF writer uses) must be that of the rows a*A, b*B, c*C.
 
@@ -257,6 +262,47 @@ def scale_cases(ctx):
     return out
 
 
+def aliasing(a, r):
+    """names of the attributes through which the replica `r` and the original `a` share state (empty = independent)"""
+    import numpy as np
+    if r is a:
+        return ["<the same object>"]
+    out = []
+    for name, va in vars(a).items():
+        vr = getattr(r, name, None)
+        if va is None or vr is None:
+            continue
+        if isinstance(va, np.ndarray) and isinstance(vr, np.ndarray):
+            if va.size and vr.size and np.shares_memory(va, vr):
+                out.append(name)
+        elif not isinstance(va, (int, float, str, bool, tuple, frozenset)) and va is vr:
+            out.append(name)
+    return sorted(out)
+
+
+def mutate_in_place(r):
+    """edit the replica through its own arrays / methods (what a caller does next with a replica)"""
+    import numpy as np
+    done = []
+
+    def step(name, fn):
+        try:
+            fn()
+            done.append(name)
+        except Exception:   # the edit itself may be impossible (no atoms, no table): irrelevant for the original
+            pass
+    step("translate", lambda: r.translate(np.array([1.0, 2.0, 3.0])))
+    step("cell", lambda: r.cell.__setitem__((0, 0), r.cell[0, 0] + 1))
+    step("charges", lambda: r.charges.__setitem__(slice(None), 9.0))
+    step("positions", lambda: r.positions.__setitem__((0, 0), 123.0))
+    step("atom_types", lambda: r.atom_types.__setitem__(0, r.atom_types[0]))
+    step("bond coeff", lambda: r.bond_type_coeffs.__setitem__(0, "edited"))
+    step("labels", lambda: r.atom_type_labels.append("edited") if isinstance(r.atom_type_labels, list) else None)
+    step("extra labels", lambda: r.extra_atom_labels.add("_edited"))
+    step("delete", lambda: r.__delitem__([0]))
+    return done
+
+
 def oracle_cellpar(a, dims, abc, tol=1e-7):
     """the (a, b, c, alpha, beta, gamma) the replicated object reports must describe the rows a*A, b*B, c*C"""
     import math
@@ -318,7 +364,11 @@ def _replicate_via_ase(aj, dims):
         r = a.replicate(tuple(dims))
         side["after"] = core.canon_atoms(a)
         side["abc"] = [float(v) for v in r.cell_abc_alpha_beta_gamma()]
-        return core.canon_atoms(r)
+        dump = core.canon_atoms(r)
+        side["alias"] = aliasing(a, r)
+        side["edits"] = mutate_in_place(r)
+        side["after_edit"] = core.canon_atoms(a)
+        return dump
     res = core.result_of(f)
     return ref.get("a"), res, side
 
@@ -396,7 +446,11 @@ def _replicate(aj, dims, emptied_from=None):
         r = a.replicate(tuple(dims))
         side["after"] = core.canon_atoms(a)
         side["abc"] = [float(v) for v in r.cell_abc_alpha_beta_gamma()]
-        return core.canon_atoms(r)
+        dump = core.canon_atoms(r)
+        side["alias"] = aliasing(a, r)
+        side["edits"] = mutate_in_place(r)
+        side["after_edit"] = core.canon_atoms(a)
+        return dump
     res = core.result_of(f)
     if res.get("err") == "error:Exception" and aj.get("cell") is None:
         res = {"err": "error:nocell"}
@@ -407,7 +461,18 @@ def judge_api(a, dims, r, side, rel=False):
     bad = oracle_replicate(a, dims, r, side.get("after"), side.get("before"), rel=rel)
     if bad is None and "ok" in r:
         bad = oracle_cellpar(a, dims, side.get("abc"))
+    if bad is None and "ok" in r:
+        bad = oracle_independent(side)
     return bad
+
+
+def oracle_independent(side):
+    """the replica is a new object: no shared state, and editing it in place leaves the original as it was"""
+    if side.get("alias"):
+        return "the replica is not independent of the original: shared %s" % ", ".join(side["alias"])
+    if "after_edit" in side and side["after_edit"] != side.get("before"):
+        return "editing the replica in place (%s) changed the original object" % ", ".join(side.get("edits", []))
+    return None
 
 
 def rand_dims(rng, top, maxprod):
